@@ -98,6 +98,15 @@ pub fn profile(prop: &str) -> Profile {
         max_ops: 120,
         reopen_modes: 0,
     };
+    // every profile also carries a little of the rest of the API: a property that holds must hold whatever else
+    // the client calls in between (cheap cross-feature coverage; the focus weights follow below)
+    p.w[W_SETMIN] = 1;
+    p.w[W_DISCARD] = 1;
+    p.w[W_INCDISC] = 1;
+    p.w[W_CLONE] = 1;
+    p.w[W_DROPARENA] = 1;
+    p.w[W_CLEAR] = 1;
+    p.w[W_REWIND] = 1;
     match prop {
         "C01" => {}
         "C03" => {
@@ -197,6 +206,9 @@ pub fn profile(prop: &str) -> Profile {
         "C06" => {
             p.prop = "C06";
             p.w[W_CLEAR] = 2;
+            p.w[W_REWIND] = 0;
+            p.w[W_CLONE] = 0;
+            p.w[W_DROPARENA] = 0;
             p.backends = vec![Backend::File];
             p.w[W_SETMIN] = 2;
             p.w[W_DISCARD] = 3;
